@@ -234,6 +234,16 @@ func curvedShapes() []shape {
 		{mv, 4.61163901509608, 1.86048444980878, mv, ar, 5, 4, 0.52359877559829882, 0, -3.91704630442835, -3.06355431525226, ar},               // 160 degrees of a 5x4 ellipse rotated by 30 degrees (axis ratio 1.25)
 		{mv, 0.603509973234811, 4.93603003493118, mv, ar, 5, 4, 1.3089969389957472, 2, -1.94536004920698, -4.5764823907108, ar},                // 160 degrees of a 5x4 ellipse rotated by 75 degrees (axis ratio 1.25)
 		{mv, -2.97735368364245, -2.72153417192659, mv, ar, 5, 4, 2.0943951023931953, 2, 3.8455945719771, 1.21769684012224, ar},                 // 160 degrees of a 5x4 ellipse rotated by 120 degrees (axis ratio 1.25)
+		// corners between two arcs of unequal radii (the arcs joiner intersects two offset circles of different radii)
+		{mv, 0, 0, mv, ar, 4, 4, 0, 2, 4, 4, ar, ar, 2, 2, 0, 2, 6, 6, ar},   // r=4 ccw then r=2 ccw, right turn of 90 degrees
+		{mv, 0, 0, mv, ar, 4, 4, 0, 0, 4, -4, ar, ar, 2, 2, 0, 0, 6, -6, ar}, // the mirror image (left turn)
+		{mv, 0, 0, mv, ar, 2, 2, 0, 2, 2, 2, ar, ar, 5, 5, 0, 2, 7, 7, ar},   // r=2 then r=5
+		{mv, 0, 0, mv, ar, 4, 4, 0, 2, 4, 4, ar, ar, 2, 2, 0, 0, 2, 6, ar},   // r=4 ccw then r=2 cw, left turn of 90 degrees
+		// the same with a left turn of 60 degrees between two counter clockwise arcs: the outer offset circles (radii r+w/2) intersect beyond the corner
+		{mv, 0, 0, mv, ar, 5, 5, 0, 2, 5, 5, ar, ar, 10, 10, 0, 2, -5, 5, ar},
+		{mv, 0, 0, mv, ar, 5, 5, 0, 0, 5, -5, ar, ar, 10, 10, 0, 0, -5, -5, ar}, // mirror image (clockwise)
+		{mv, 0, 0, mv, ar, 2, 2, 0, 2, 2, 2, ar, ar, 4, 4, 0, 2, -2, 2, ar},     // radii 2 and 4
+		{mv, 0, 0, mv, ln, 3, 0, ln, ar, 4, 4, 0, 2, 1, 3.4641016151377544, ar}, // a line, then an arc of radius 4 that leaves turning 60 degrees to the left... (line-arc corner)
 	}
 	var out []shape
 	for _, d := range raw {
